@@ -89,6 +89,10 @@ func genSpillCase(r *rand.Rand, big bool) string {
 	if big {
 		maxd = 260 // line reads cross the 100-byte chunks of the file part
 	}
+	large := r.Intn(9) == 0 // the memory part has to grow (it starts at max(512, hint) bytes)
+	if large {
+		maxd = 1300
+	}
 	var datas [][]byte
 	for i := 0; i < nw; i++ {
 		datas = append(datas, genData(r, maxd))
@@ -99,6 +103,10 @@ func genSpillCase(r *rand.Rand, big bool) string {
 		mmax = 4096
 	}
 	hint := pick(r, []int{0, 1, 64, mmax, mmax + 5, 100000})
+	if large {
+		mmax = pick(r, []int{1500, 2048, 4096, total + 1})
+		hint = pick(r, []int{0, 512, 600})
+	}
 	for _, d := range datas {
 		switch r.Intn(3) {
 		case 0:
